@@ -44,7 +44,14 @@ PROP = dict(
                            "monitor:further-reply-refused": 30000, "request:without-id": 10000,
                            "peer:id-only-requests": 20000, "request:id-only-dispatched": 20000}),
               dict(name="c12_cxx", src=["c12_cxx.cpp", "c12_cxx_tr.c"], libs=["mpt++", "mptio", "mptplot", "mptcore"], batch=512,
-                   floors={}),
+                   floors={"io::stream::dispatch::process": 100000, "io::stream::~stream": 30000, "callback:send": 150000,
+                           "transport:accepted": 60000, "transport:rejected": 60000, "transport:default-reply-attempts": 50000,
+                           "monitor:default-reply-due": 15000, "process:default-reply-rejected": 15000,
+                           "release:after-rejected-reply": 10000, "monitor:release-default-reply": 10000,
+                           "reply_context::reply(retry)": 20000, "reply_context::defer": 20000,
+                           "reply_context_detached::reply": 5000, "reply_context_detached::reply(NULL)": 15000,
+                           "monitor:further-reply-refused": 15000, "monitor:send-id-compared": 150000,
+                           "monitor:send-message-compared": 80000, "monitor:detached-no-send": 5000}),
               dict(name="c12_conn", src=["c12_conn.c"], libs=["mptio", "mptcore"], batch=512,
                    floors={"mpt_connection_assign(stream)": 8000, "mpt_connection_assign(datagram)": 8000,
                            "mpt_connection_dispatch": 200000, "mpt_outdata_recv": 40000, "mpt_connection_await": 30000,
@@ -54,13 +61,17 @@ PROP = dict(
                            "monitor:further-reply-refused": 20000, "peer:default-replies": 15000,
                            "reply_context.defer": 15000, "reply_context_detached.reply": 5000,
                            "reply_context_detached.reply(NULL)": 8000, "reply:fragmented-message": 8000,
-                           "request:without-id": 5000}),
+                           "request:without-id": 5000,
+                           "conn:congested-burst": 3000, "conn:replies-queued-while-congested": 6000, "peer:filler-received": 10000}),
               dict(name="c12_sreply", src=["c12_sreply.c"], libs=["mptio", "mptcore"], batch=512,
                    floors={"mpt_stream_reply": 100000, "reply:accepted": 50000, "reply:refused": 40000,
                            "reply:may-not-fit": 30000, "reply:during-unfinished-message": 20000,
                            "reply:fragmented-message": 50000, "reply:empty-first-fragment": 10000,
                            "mpt_stream_reply(retry)": 1500, "monitor:retry-accepted": 1500,
-                           "monitor:frame-compared": 80000, "monitor:sequence-complete": 25000}),
+                           "monitor:frame-compared": 80000, "monitor:sequence-complete": 25000,
+                           "exact:cobs": 2000, "exact:cobs_r": 2000, "exact:cobs_zpe": 2000, "exact:cobs_zpe_r": 2000,
+                           "exact:delimiter-does-not-fit": 8000, "exact:refused": 10000, "exact:just-fits": 2000,
+                           "monitor:reply-after-refusal": 10000}),
               dict(name="c12_sync", src=["c12_sync.c"], libs=["mptio", "mptcore"], batch=512, timeout=200,
                    floors={"mpt_stream_sync": 40000, "sync:two-or-more-pending": 30000, "peer:replies-sent": 150000,
                            "monitor:reply-body-compared": 150000, "monitor:reply-delivery-accounted": 150000,
@@ -77,6 +88,7 @@ PROP = dict(
               "still held in PRNG order; non-trivial = at least two requests armed and at least two sends reached the transport; "
               "c12_stream: case = 1..4 bursts of 1..4 framed requests (payload 0..12 bytes, half of them 0, 1 or 2 bytes; 0 = request consisting of the id only) on one stream input; non-trivial = at least two requests and one reply; "
               "c12_conn: 1..5 bursts of 1..4 peer or own requests on one connection (even cases stream, odd cases datagram), non-trivial = at least two requests; "
+              "c12_cxx: 3..16 (thorough 30) operations (request through dispatch::process, retry, deferred reply/release) followed by the release of stream and handles in PRNG order, non-trivial = two requests and two sends; "
               "c12_sync: 1..5 rounds of 1..6 requests, non-trivial = a round with at least two pending requests; c12_sreply: 3..14 operations, non-trivial = at least two accepted replies; "
               "distinct = 64-bit hash of id / operation list with arguments, message bytes and transport verdicts"),
         exhaustive_note="boundary ids {0,1,0x7f,0x80,2^k-1,2^k,2^k+1 (k=0..63),2^64-1} x widths 0..9",
@@ -92,6 +104,8 @@ PROP = dict(
             "mpt_stream_sync is called with timeout -1 on a blocking descriptor when the peer has written the replies to all pending requests, with timeout 0 when only a part is answered (its return value is then not judged); "
             "a repeated reply is only sent for an id no pending request uses, in front of real answers of the same round; "
             "2 s of CPU time or 60 s of wall time inside the call count as missing progress",
+            "decoding of COBS/R, ZPE and ZPE/R frames in c12_sreply uses the independent reference decoder harness/c01_refcodec.h; exactly-full states are built from the frame length the library itself produces for the same reply in a large stream",
+            "stream connection cases use a 2 kB SO_SNDBUF on non-blocking sockets; in congested bursts the peer does not read until the connection has answered",
             "a reply whose COBS size plus 4 bytes fits the free output space must be accepted by mpt_stream_reply; finished bytes of the output queue are final",
             "a request armed on the context when its reference is released with the transport attached must get one default (NULL message) send, also while deferred handles are outstanding",
         ],
